@@ -55,6 +55,7 @@ func detKey(seed uint64, idx int) *ecdsa.PrivateKey {
 type nodeCfg struct {
 	name     string
 	ip       string
+	enrIP    string // address the node's record names, when it differs from the address it sends from
 	port     int
 	key      *ecdsa.PrivateKey
 	versions []uint8 // nil: do not set the pv entry at all
@@ -115,7 +116,11 @@ func (w *world) newBase(cfg nodeCfg) *baseNode {
 	}
 	b.db = db
 	ln := enode.NewLocalNode(db, cfg.key)
-	ln.SetStaticIP(net.ParseIP(cfg.ip))
+	if cfg.enrIP != "" {
+		ln.SetStaticIP(net.ParseIP(cfg.enrIP))
+	} else {
+		ln.SetStaticIP(net.ParseIP(cfg.ip))
+	}
 	ln.SetFallbackUDP(cfg.port)
 	ln.Set(portalwire.Tag)
 	if cfg.pvRaw != nil {
